@@ -809,3 +809,453 @@ Lemma toy_ecdsa_law k h m n : toy_ecdsa_verify k h m (toy_ecdsa k h m n) = true.
 Proof. unfold toy_ecdsa_verify, toy_ecdsa. cbn [fst snd]. rewrite !Z.eqb_refl. reflexivity. Qed.
 Lemma toy_ed_law k m : toy_ed_verify k m (toy_ed k m) = true.
 Proof. unfold toy_ed_verify, toy_ed. apply list_eqb_refl. Qed.
+
+(* ------------------------------------------------------------------------------------------------------------------
+   Recursive signing (C09): trees of configurations and of signers
+   ------------------------------------------------------------------------------------------------------------------ *)
+Section RnodeInd.
+  Variable P : rnode -> Prop.
+  Hypothesis H : forall f env ds, Forall P ds -> P (RNode f env ds).
+  Fixpoint rnode_ind' (n : rnode) : P n :=
+    match n with
+    | RNode f env ds => H f env ds ((fix go (ds : list rnode) : Forall P ds :=
+                                       match ds with [] => Forall_nil _ | d :: r => Forall_cons d (rnode_ind' d) (go r) end) ds)
+    end.
+End RnodeInd.
+Section CfgInd.
+  Variable P : cfg -> Prop.
+  Hypothesis H : forall o kn kid s k a x act b deps, Forall (fun nc => P (snd nc)) (match deps with Some l => l | None => [] end) ->
+                                                     P (Cfg o kn kid s k a x act b deps).
+  Fixpoint cfg_ind' (c : cfg) : P c :=
+    match c with
+    | Cfg o kn kid s k a x act b deps =>
+        H o kn kid s k a x act b deps
+          (match deps as d return Forall (fun nc => P (snd nc)) (match d with Some l => l | None => [] end) with
+           | None => Forall_nil _
+           | Some l => (fix go (l : list (pystr * cfg)) : Forall (fun nc => P (snd nc)) l :=
+                          match l with [] => Forall_nil _ | nc :: r => Forall_cons nc (cfg_ind' (snd nc)) (go r) end) l
+           end)
+    end.
+End CfgInd.
+
+(* the loops of the model as stand-alone functions (convertible with the in-line loops of the generated definitions) *)
+Section Loops.
+  Variable rec_sign : rnode -> nat -> res (cbor * nat * list (rfields * cbor)).
+  Fixpoint sign_deps (ds : list rnode) (env : cbor) (ent : nat) (tr : list (rfields * cbor)) : res (cbor * nat * list (rfields * cbor)) :=
+    match ds with
+    | [] => Ok (env, ent, tr)
+    | d :: r =>
+        match rec_sign d ent with Raise x => Raise x | Ok (denv, ent1, tr1) =>
+        match env_set env (CText (r_name (rn_fields d))) (CBytes (ser denv)) with Raise x => Raise x | Ok env1 =>
+        sign_deps r env1 ent1 (tr ++ tr1) end end
+    end.
+  Variable rec_init : cfg -> cbor -> pystr -> res rnode.
+  Variable envelope : cbor.
+  Fixpoint init_deps (l : list (pystr * cfg)) : res (list rnode) :=
+    match l with
+    | [] => Ok []
+    | (dep, dc) :: r =>
+        match load_dependency envelope dep with Raise x => Raise x | Ok denv =>
+        match rec_init dc denv dep with Raise x => Raise x | Ok d =>
+        match init_deps r with Raise x => Raise x | Ok ds => Ok (d :: ds) end end end
+    end.
+End Loops.
+
+Lemma rs_sign_unfold sc f env ds ent :
+  rs_sign sc (RNode f env ds) ent =
+  match sign_deps (rs_sign sc) ds env ent [] with
+  | Raise x => Raise x
+  | Ok (env1, ent1, tr1) =>
+      if r_omit f then Ok (env1, ent1, tr1) else
+      match sc f env1 ent1 with Raise x => Raise x | Ok (env2, ent2) => Ok (env2, ent2, tr1 ++ [(f, env1)]) end
+  end.
+Proof. reflexivity. Qed.
+
+Lemma calls_of_unfold f env ds : calls_of (RNode f env ds) = flat_map calls_of ds ++ (if r_omit f then [] else [f]).
+Proof.
+  reflexivity.
+Qed.
+
+(* the trace of sign_envelope calls is determined by the tree of signers: dependencies first, then the node unless omitted *)
+Lemma rs_sign_trace sc n : forall ent env' ent' tr, rs_sign sc n ent = Ok (env', ent', tr) -> map fst tr = calls_of n.
+Proof.
+  induction n as [f env ds IH] using rnode_ind'. intros ent env' ent' tr. rewrite rs_sign_unfold, calls_of_unfold.
+  assert (Hd : forall ds, Forall (fun d => forall ent env' ent' tr, rs_sign sc d ent = Ok (env', ent', tr) -> map fst tr = calls_of d) ds ->
+               forall e n0 tr0 e1 n1 tr1, sign_deps (rs_sign sc) ds e n0 tr0 = Ok (e1, n1, tr1) -> map fst tr1 = map fst tr0 ++ flat_map calls_of ds).
+  { clear. induction 1 as [|d r Hd Hr IHr]; intros e n0 tr0 e1 n1 tr1; cbn [sign_deps flat_map].
+    - intros [= <- <- <-]. rewrite app_nil_r. reflexivity.
+    - destruct (rs_sign sc d n0) as [[[denv m] t1]|x] eqn:E; [|discriminate]. destruct (env_set e _ _) as [e2|x]; [|discriminate].
+      intros H. apply IHr in H. rewrite H, map_app, (Hd _ _ _ _ E), app_assoc. reflexivity. }
+  destruct (sign_deps (rs_sign sc) ds env ent []) as [[[e1 n1] t1]|x] eqn:E; [|discriminate]. apply (Hd ds IH) in E. cbn [map app] in E.
+  destruct (r_omit f).
+  - intros [= <- <- <-]. rewrite app_nil_r. exact E.
+  - destruct (sc f e1 n1) as [[e2 n2]|x]; [|discriminate]. intros [= <- <- <-]. rewrite map_app, E. reflexivity.
+Qed.
+
+Lemma rs_init_unfold envvar o kn kid cs ck ca cx cact b deps env name ss ks alg ctx :
+  rs_init envvar (Cfg o kn kid cs ck ca cx cact b deps) env name ss ks alg ctx =
+  let omit_signing := match o with Some b => b | None => false end in
+  if (match kn with None => true | Some _ => false end) && negb omit_signing then Raise ValueError else
+  if (match kid with None => true | Some _ => false end) && negb omit_signing then Raise ValueError else
+  match resolve_script envvar cs ss (s2b "NCS_SUIT_SIGN_SCRIPT") sign_suffix with Raise x => Raise x | Ok ss' =>
+  match resolve_script envvar ck ks (s2b "NCS_SUIT_KMS_SCRIPT") kms_suffix with Raise x => Raise x | Ok ks' =>
+  match (match ca with Some a => enum_of_value sign_algs a | None => Ok alg end) with Raise x => Raise x | Ok alg' =>
+  let ctx' := match cx with Some x => Some x | None => ctx end in
+  match (match cact with Some a => enum_of_value signed_actions a | None => Ok default_action end) with Raise x => Raise x | Ok act' =>
+  if b then Raise ValueError else
+  match (match deps with
+         | None => Ok []
+         | Some l => init_deps (fun dc denv dep => rs_init envvar dc denv dep (Some ss') (Some ks') alg' ctx') env l
+         end) with Raise x => Raise x | Ok ds =>
+  Ok (RNode {| r_name := name; r_omit := omit_signing; r_key_name := kn; r_key_id := kid; r_sign_script := ss'; r_kms_script := ks';
+               r_alg := alg'; r_ctx := ctx'; r_action := act' |} env ds)
+  end end end end end.
+Proof. reflexivity. Qed.
+
+Lemma spec_calls_unfold envvar path c name :
+  spec_calls envvar path c name =
+  flat_map (fun nc => spec_calls envvar (path ++ [c]) (snd nc) (fst nc)) (cfg_deps c) ++ (if cfg_omit c then [] else [spec_call envvar path c name]).
+Proof.
+  destruct c as [o kn kid cs ck ca cx cact b deps]. cbn [spec_calls cfg_deps]. f_equal.
+  destruct deps as [l|]; [|reflexivity]. generalize (path ++ [Cfg o kn kid cs ck ca cx cact b (Some l)]). intros p.
+  induction l as [|[dn dc] r IH]; [reflexivity|]. cbn [flat_map fst snd]. rewrite <- IH. reflexivity.
+Qed.
+
+Lemma enum_of_value_ok tbl v v' : enum_of_value tbl v = Ok v' -> v' = v.
+Proof. unfold enum_of_value. destruct (enum_name list_eqb tbl v); [intros [= <-]; reflexivity|discriminate]. Qed.
+Lemma default_alg_is_eddsa : default_alg = s2b "eddsa". Proof. reflexivity. Qed.
+Lemma default_action_is_error : default_action = s2b "error". Proof. reflexivity. Qed.
+
+(* what the constructor hands down a path: scripts resolved (Some) below the root, algorithm / context as inherited so far *)
+Definition script_inv (envvar : pystr -> option pystr) (path : list cfg) (so : option pystr) (field : cfg -> option pystr) (var suf : pystr) : Prop :=
+  match path with [] => so = None | _ => exists s, so = Some s /\ spec_script envvar (map field path) var suf = Some s end.
+Definition path_inv envvar (path : list cfg) (ss ks : option pystr) (alg : pystr) (ctx : option pystr) : Prop :=
+  script_inv envvar path ss cfg_sign (s2b "NCS_SUIT_SIGN_SCRIPT") sign_suffix
+  /\ script_inv envvar path ks cfg_kms (s2b "NCS_SUIT_KMS_SCRIPT") kms_suffix
+  /\ alg = inherit (map cfg_alg path) (s2b "eddsa") /\ ctx = inherit_opt (map cfg_ctx path).
+
+Lemma resolve_script_spec envvar path c so field var suf s' :
+  script_inv envvar path so field var suf -> resolve_script envvar (field c) so var suf = Ok s' ->
+  spec_script envvar (map field (path ++ [c])) var suf = Some s'.
+Proof.
+  intros Hi. unfold spec_script. rewrite map_app, fold_left_app. cbn [map fold_left]. unfold resolve_script.
+  destruct (field c) as [v|]; [intros [= <-]; reflexivity|].
+  destruct path as [|c0 p]; cbn [script_inv] in Hi.
+  - subst so. cbn [map fold_left]. unfold env_script.
+    destruct (env_truthy envvar var) as [s|]; [intros [= <-]; reflexivity|].
+    change (s2b "ZEPHYR_BASE") with [90; 69; 80; 72; 89; 82; 95; 66; 65; 83; 69].
+    destruct (env_truthy envvar _) as [z|]; [intros [= <-]; reflexivity|discriminate].
+  - destruct Hi as (s & -> & Hs). intros [= <-]. exact Hs.
+Qed.
+Lemma script_inv_step envvar path c field var suf s' :
+  spec_script envvar (map field (path ++ [c])) var suf = Some s' -> script_inv envvar (path ++ [c]) (Some s') field var suf.
+Proof. intros H. unfold script_inv. destruct (path ++ [c]) eqn:E; [destruct path; discriminate E|]. eauto. Qed.
+
+(* the tree of signers built by the constructor makes exactly the calls the specification lists for the configuration *)
+Lemma rs_init_calls envvar c : forall path env name ss ks alg ctx n,
+  path_inv envvar path ss ks alg ctx -> rs_init envvar c env name ss ks alg ctx = Ok n ->
+  calls_of n = spec_calls envvar path c name.
+Proof.
+  induction c as [o kn kid cs ck ca cx cact b deps IH] using cfg_ind'. intros path env name ss ks alg ctx n (Hs & Hk & Ha & Hx).
+  rewrite rs_init_unfold. cbv zeta. intros H.
+  destruct (_ && _) in H; [discriminate H|]. destruct (_ && _) in H; [discriminate H|].
+  destruct (resolve_script envvar cs ss _ _) as [ss'|] eqn:Es; [|discriminate H].
+  destruct (resolve_script envvar ck ks _ _) as [ks'|] eqn:Ek; [|discriminate H].
+  set (c := Cfg o kn kid cs ck ca cx cact b deps) in *.
+  apply (resolve_script_spec envvar path c ss cfg_sign _ _ ss' Hs) in Es.
+  apply (resolve_script_spec envvar path c ks cfg_kms _ _ ks' Hk) in Ek.
+  destruct (match ca with Some a => enum_of_value sign_algs a | None => Ok alg end) as [alg'|] eqn:Ea; [|discriminate H].
+  assert (Ha' : alg' = inherit (map cfg_alg (path ++ [c])) (s2b "eddsa")).
+  { unfold inherit. rewrite map_app, fold_left_app. cbn [map fold_left cfg_alg c]. destruct ca as [a|].
+    - apply enum_of_value_ok in Ea. exact Ea.
+    - injection Ea as <-. exact Ha. }
+  assert (Hx' : match cx with Some x => Some x | None => ctx end = inherit_opt (map cfg_ctx (path ++ [c]))).
+  { unfold inherit_opt. rewrite map_app, fold_left_app. cbn [map fold_left cfg_ctx c]. destruct cx; [reflexivity|exact Hx]. }
+  destruct (match cact with Some a => enum_of_value signed_actions a | None => Ok default_action end) as [act'|] eqn:Eact; [|discriminate H].
+  assert (Hact : act' = match cact with Some a => a | None => s2b "error" end).
+  { destruct cact as [a|]; [apply enum_of_value_ok in Eact; exact Eact|injection Eact as <-; reflexivity]. }
+  destruct b; [discriminate H|].
+  assert (Hinv : path_inv envvar (path ++ [c]) (Some ss') (Some ks') alg' (match cx with Some x => Some x | None => ctx end)).
+  { split; [apply script_inv_step; exact Es|]. split; [apply script_inv_step; exact Ek|]. split; assumption. }
+  match type of H with match ?d with Ok _ => _ | Raise _ => _ end = _ => destruct d as [ds|] eqn:Ed; [|discriminate H] end.
+  injection H as <-. rewrite calls_of_unfold, spec_calls_unfold. cbn [r_omit].
+  assert (Hl : cfg_deps c = match deps with Some l => l | None => [] end) by reflexivity. rewrite Hl. clear Hl.
+  set (p := path ++ [c]) in *. f_equal.
+  - (* dependencies *)
+    clearbody p. clear - IH Ed Hinv. destruct deps as [l|]; [|injection Ed as <-; reflexivity].
+    revert ds Ed. induction l as [|[dn dc] r IHr]; intros ds; cbn [init_deps flat_map fst snd].
+    + intros [= <-]. reflexivity.
+    + inversion IH as [|? ? Hdc Hr]; subst. cbn [snd] in Hdc.
+      destruct (load_dependency env dn) as [denv|]; [|discriminate].
+      destruct (rs_init envvar dc denv dn _ _ _ _) as [d|] eqn:Ei; [|discriminate].
+      destruct (init_deps _ env r) as [ds'|] eqn:Er; [|discriminate]. intros [= <-]. cbn [flat_map].
+      rewrite (Hdc _ _ _ _ _ _ _ _ Hinv Ei), (IHr Hr ds' eq_refl). reflexivity.
+  - (* the node itself *)
+    unfold cfg_omit, c. destruct o as [[|]|]; try reflexivity; f_equal; unfold spec_call; cbn [cfg_key_name cfg_key_id cfg_action];
+      fold c; fold p; rewrite Es, Ek, <- Ha', <- Hx', Hact; reflexivity.
+Qed.
+
+(* the whole command: the calls of sign_envelope, in order, are those the specification lists for the configuration *)
+Lemma recursive_calls sc envvar ent infile c nm out ent' tr :
+  cli_sign_recursive sc envvar ent infile c nm = Ok (out, ent', tr) -> map fst tr = spec_calls envvar [] c nm.
+Proof.
+  unfold cli_sign_recursive. intros H. hstep H. hstep H.
+  match goal with E : rs_init _ _ _ _ _ _ _ _ = Ok ?n |- _ => rename E into Ei; rename n into sn end.
+  destruct (rs_sign sc sn ent) as [[[e1 n1] t1]|] eqn:Er; [|discriminate H]. injection H as <- <- <-.
+  rewrite (rs_sign_trace sc sn _ _ _ _ Er). refine (rs_init_calls envvar c [] _ _ None None default_alg None sn _ Ei).
+  repeat split; reflexivity.
+Qed.
+
+(* nearest ancestor-or-self: the last element of the path that sets the attribute wins; if none does, the default *)
+Lemma inherit_nearest {A} (pre post : list (option A)) v d : Forall (fun o => o = None) post -> inherit (pre ++ Some v :: post) d = v.
+Proof.
+  intros Hp. unfold inherit. rewrite fold_left_app. cbn [fold_left]. generalize (fold_left (fun cur o => match o with Some v0 => v0 | None => cur end) pre d). intros _.
+  induction Hp as [|o post -> _ IH]; [reflexivity|exact IH].
+Qed.
+Lemma inherit_default {A} (path : list (option A)) d : Forall (fun o => o = None) path -> inherit path d = d.
+Proof. intros Hp. unfold inherit. induction Hp as [|o post -> _ IH]; [reflexivity|exact IH]. Qed.
+Lemma inherit_opt_nearest {A} (pre post : list (option A)) v : Forall (fun o => o = None) post -> inherit_opt (pre ++ Some v :: post) = Some v.
+Proof.
+  intros Hp. unfold inherit_opt. rewrite fold_left_app. cbn [fold_left].
+  generalize (fold_left (fun cur o => match o with Some v0 => Some v0 | None => cur end) pre (@None A)). intros _.
+  induction Hp as [|o post -> _ IH]; [reflexivity|exact IH].
+Qed.
+Lemma spec_script_nearest envvar (pre post : list (option pystr)) v var suf :
+  Forall (fun o => o = None) post -> spec_script envvar (pre ++ Some v :: post) var suf = Some v.
+Proof.
+  intros Hp. unfold spec_script. rewrite fold_left_app. cbn [fold_left].
+  generalize (fold_left (fun cur o => match o with Some v0 => Some v0 | None => cur end) pre (env_script envvar var suf)). intros _.
+  induction Hp as [|o post -> _ IH]; [reflexivity|exact IH].
+Qed.
+
+(* ---- what recursive signing leaves untouched ---- *)
+Lemma load_dependency_get env dn denv :
+  load_dependency env dn = Ok denv -> exists t kvs b, env = CTag t (CMap kvs) /\ dict_get kvs (CText dn) = Some (CBytes b).
+Proof.
+  unfold load_dependency, env_map. destruct env as [| | | | | | |t c|]; try discriminate. destruct c as [| | | | |kvs| | |]; try discriminate.
+  destruct (dict_get kvs (CText dn)) as [v|] eqn:G; [|discriminate]. destruct v; try discriminate. intros _. eauto.
+Qed.
+Lemma list_eqb_neq a b : a <> b -> list_eqb a b = false.
+Proof. intros H. destruct (list_eqb a b) eqn:E; [apply list_eqb_eq in E; contradiction|reflexivity]. Qed.
+
+Section Frame.
+  Variable sc : rfields -> cbor -> nat -> res (cbor * nat).
+  Hypothesis sc_frame : forall f env ent env' ent', sc f env ent = Ok (env', ent') -> only_wrapper env env'.
+  Local Notation nm d := (r_name (rn_fields d)).
+  Local Notation EL := (every_level frame_level).
+
+  Lemma sign_deps_frame t : forall todo kvsc entc trc env1 ent1 tr1,
+    Forall (fun d => forall ent env' ent' tr, rs_sign sc d ent = Ok (env', ent', tr) -> EL d env') todo ->
+    NoDup (map (fun d => nm d) todo) ->
+    (forall d, In d todo -> exists v0, dict_get kvsc (CText (nm d)) = Some v0) ->
+    sign_deps (rs_sign sc) todo (CTag t (CMap kvsc)) entc trc = Ok (env1, ent1, tr1) ->
+    exists kvs1, env1 = CTag t (CMap kvs1) /\ map fst kvs1 = map fst kvsc
+      /\ (forall k, (forall d, In d todo -> py_eqb k (CText (nm d)) = false) -> dict_get kvs1 k = dict_get kvsc k)
+      /\ (forall d, In d todo -> exists denv', dict_get kvs1 (CText (nm d)) = Some (CBytes (ser denv')) /\ EL d denv').
+  Proof.
+    induction todo as [|d r IHr]; intros kvsc entc trc env1 ent1 tr1 HIH Hnd Hpres; cbn [sign_deps].
+    - intros [= <- <- <-]. exists kvsc. repeat split; auto. intros d [].
+    - inversion HIH as [|? ? Hd Hr]; subst. cbn [map] in Hnd. inversion Hnd as [|? ? Hnotin Hnd']; subst.
+      destruct (rs_sign sc d entc) as [[[denv' m] t1]|] eqn:Ed; [|discriminate]. cbn [env_set].
+      set (v := CBytes (ser denv')). set (kvsc' := dict_set kvsc (CText (nm d)) v).
+      assert (Hne : forall d', In d' r -> list_eqb (nm d') (nm d) = false).
+      { intros d' Hin. apply list_eqb_neq. intros E. apply Hnotin. rewrite <- E. apply (in_map (fun d => nm d)). exact Hin. }
+      intros H. destruct (IHr kvsc' m (trc ++ t1) env1 ent1 tr1 Hr Hnd') as (kvs1 & -> & Hkeys & Hsame & Hdeps); [|exact H|].
+      { intros d' Hin. destruct (Hpres d' (or_intror Hin)) as [v0 Hv0]. exists v0. unfold kvsc'.
+        rewrite dict_get_set_text; [exact Hv0|]. rewrite py_eqb_text_text. apply Hne, Hin. }
+      exists kvs1. split; [reflexivity|]. split; [|split].
+      + rewrite Hkeys. unfold kvsc'. destruct (Hpres d (or_introl eq_refl)) as [v0 Hv0]. apply (dict_set_keys _ _ _ _ Hv0).
+      + intros k Hk. rewrite Hsame by (intros d' Hin; apply Hk; right; exact Hin). unfold kvsc'.
+        apply dict_get_set_text. apply Hk. left. reflexivity.
+      + intros d' [<-|Hin].
+        * exists denv'. split; [|apply (Hd _ _ _ _ Ed)]. rewrite Hsame.
+          -- unfold kvsc'. apply dict_get_set_same.
+          -- intros d' Hin. rewrite py_eqb_text_text. rewrite list_eqb_neq; [reflexivity|].
+             intros E. apply Hnotin. rewrite E. apply (in_map (fun d => nm d)). exact Hin.
+        * apply Hdeps, Hin.
+  Qed.
+
+  Lemma rs_sign_frame n : rnode_ok n -> forall ent env' ent' tr, rs_sign sc n ent = Ok (env', ent', tr) -> EL n env'.
+  Proof.
+    induction n as [f env ds IH] using rnode_ind'. intros Hok ent env' ent' tr. rewrite rs_sign_unfold.
+    inversion Hok as [? ? ? Hnd Hdeps]; subst.
+    assert (IH' : Forall (fun d => forall ent env' ent' tr, rs_sign sc d ent = Ok (env', ent', tr) -> EL d env') ds).
+    { apply Forall_forall. intros d Hin. rewrite Forall_forall in IH. apply (IH d Hin). apply (Hdeps d Hin). }
+    destruct ds as [|d0 r].
+    - (* no dependency signers *)
+      cbn [sign_deps]. destruct (r_omit f).
+      + intros [= <- <- <-]. constructor; [left; reflexivity|intros d []].
+      + destruct (sc f env ent) as [[e2 n2]|] eqn:Es; [|discriminate]. intros [= <- <- <-].
+        destruct (sc_frame _ _ _ _ _ Es) as (t & kvs & kvs' & -> & -> & Hk & Hs).
+        constructor; [|intros d []]. right. exists t, kvs, kvs'. repeat split; auto.
+    - destruct (load_dependency_get _ _ _ (proj1 (Hdeps d0 (or_introl eq_refl)))) as (t & kvs & b0 & -> & _).
+      destruct (sign_deps (rs_sign sc) (d0 :: r) (CTag t (CMap kvs)) ent []) as [[[e1 n1] t1]|] eqn:E; [|discriminate].
+      destruct (sign_deps_frame t (d0 :: r) kvs ent [] e1 n1 t1 IH' Hnd) as (kvs1 & -> & Hkeys & Hsame & Hd); [|exact E|].
+      { intros d Hin. destruct (load_dependency_get _ _ _ (proj1 (Hdeps d Hin))) as (t' & kvs' & b & [= <- <-] & Hg). eauto. }
+      destruct (r_omit f).
+      + intros [= <- <- <-]. constructor.
+        * right. exists t, kvs, kvs1. repeat split; auto. intros k _ Hk. apply Hsame. intros d Hin. apply Hk.
+          unfold dep_names. cbn [rn_deps]. apply (in_map (fun d => nm d)). exact Hin.
+        * cbn [rn_deps]. intros d Hin. destruct (Hd d Hin) as (denv' & Hg & Hel). exists denv'. split; [|exact Hel].
+          unfold env_get, env_map. rewrite Hg. reflexivity.
+      + destruct (sc f (CTag t (CMap kvs1)) n1) as [[e2 n2]|] eqn:Es; [|discriminate]. intros [= <- <- <-].
+        destruct (sc_frame _ _ _ _ _ Es) as (t' & kvs1' & kvs2 & [= <- <-] & -> & Hk2 & Hs2). constructor.
+        * right. exists t, kvs, kvs2. split; [reflexivity|]. split; [reflexivity|]. split; [congruence|].
+          intros k Hk2' Hk. rewrite Hs2 by exact Hk2'. apply Hsame. intros d Hin. apply Hk.
+          unfold dep_names. cbn [rn_deps]. apply (in_map (fun d => nm d)). exact Hin.
+        * cbn [rn_deps]. intros d Hin. destruct (Hd d Hin) as (denv' & Hg & Hel). exists denv'. split; [|exact Hel].
+          unfold env_get, env_map. rewrite Hs2 by reflexivity. rewrite Hg. reflexivity.
+  Qed.
+End Frame.
+
+(* ---- the NCS sign script changes nothing but the entry under key 2 ---- *)
+Lemma only_wrapper_set t kvs v w :
+  dict_get kvs (CUint 2) = Some w -> only_wrapper (CTag t (CMap kvs)) (CTag t (CMap (dict_set kvs (CUint 2) v))).
+Proof.
+  intros H. exists t, kvs, (dict_set kvs (CUint 2) v). split; [reflexivity|]. split; [reflexivity|]. split.
+  - apply (dict_set_keys _ _ _ _ H).
+  - intros k Hk. apply dict_get_set_uint. exact Hk.
+Qed.
+Lemma only_wrapper_refl t kvs : only_wrapper (CTag t (CMap kvs)) (CTag t (CMap kvs)).
+Proof. exists t, kvs, kvs. repeat split; reflexivity. Qed.
+Lemma only_wrapper_trans a b c : only_wrapper a b -> only_wrapper b c -> only_wrapper a c.
+Proof.
+  intros (t & k1 & k2 & -> & -> & H1 & H2) (t' & k2' & k3 & [= <- <-] & -> & H3 & H4).
+  exists t, k1, k3. split; [reflexivity|]. split; [reflexivity|]. split; [congruence|]. intros k Hk. rewrite H4, H2 by exact Hk. reflexivity.
+Qed.
+Lemma env_get_inv e k v : env_get e k = Ok v -> exists t kvs, e = CTag t (CMap kvs) /\ dict_get kvs k = Some v.
+Proof.
+  unfold env_get, env_map. destruct e as [| | | | | | |t c|]; try discriminate. destruct c as [| | | | |kvs| | |]; try discriminate.
+  destruct (dict_get kvs k) as [v0|] eqn:G; [|discriminate]. intros [= <-]. eauto.
+Qed.
+
+Lemma asa_frame self a self' : already_signed_action self a = Ok self' -> only_wrapper (envelope self) (envelope self').
+Proof.
+  unfold already_signed_action, wrapper_key. rewrite cint_2. intros H.
+  destruct (env_get (envelope self) (CUint 2)) as [w|] eqn:Eg; [|discriminate H].
+  destruct (env_get_inv _ _ _ Eg) as (t & kvs & He & Hg). rewrite He in *.
+  hstep H. hstep H.
+  match type of H with match ?x with Ok _ => _ | Raise _ => _ end = _ => destruct x as [[blk|]|]; try discriminate H end.
+  - destruct (str_lookup a asa_branches) as [[e| |]|].
+    + discriminate H.
+    + destruct (remove_first blk _); [|discriminate H]. unfold env_set in H. injection H as <-. cbn [envelope set_envelope].
+      apply (only_wrapper_set _ _ _ _ Hg).
+    + injection H as <-. cbn [envelope set__skip_signing]. rewrite He. apply only_wrapper_refl.
+    + injection H as <-. rewrite He. apply only_wrapper_refl.
+  - injection H as <-. rewrite He. apply only_wrapper_refl.
+Qed.
+Lemma add_signature_frame self sig prot self' : add_signature self sig prot None = Ok self' -> only_wrapper (envelope self) (envelope self').
+Proof.
+  unfold add_signature, create_authentication_block. cbv beta iota zeta. rewrite cint_2. intros H.
+  destruct (env_get (envelope self) (CUint 2)) as [w|] eqn:Eg; [|discriminate H].
+  destruct (env_get_inv _ _ _ Eg) as (t & kvs & He & Hg). rewrite He in *.
+  hstep H. hstep H. unfold env_set in H. cbv beta iota zeta in H. injection H as <-. cbn [envelope set_envelope].
+  apply (only_wrapper_set _ _ _ _ Hg).
+Qed.
+
+Lemma sign_envelope_frame keystore ecdsa eddsa eddsa_ph ent env kn kid alg ctx action env' ent' :
+  sign_envelope keystore ecdsa eddsa eddsa_ph ent env kn kid alg ctx action = Ok (env', ent') -> only_wrapper env env'.
+Proof.
+  unfold sign_envelope. cbv zeta. intros H.
+  destruct (already_signed_action _ action) as [self1|] eqn:Ea; [|discriminate H]. apply asa_frame in Ea. cbn [envelope] in Ea.
+  destruct (_skip_signing self1); [injection H as <- _; exact Ea|].
+  destruct (enum_name list_eqb sign_algs alg); [|discriminate H]. hstep H. cbv zeta in H. hstep H.
+  match type of H with match ?x with Ok _ => _ | Raise _ => _ end = _ => destruct x as [[sg e1]|]; [|discriminate H] end.
+  match type of H with match ?x with Ok _ => _ | Raise _ => _ end = _ => destruct x as [self2|] eqn:E2; [|discriminate H] end.
+  injection H as <- _. apply add_signature_frame in E2. exact (only_wrapper_trans _ _ _ Ea E2).
+Qed.
+Lemma ncs_call_frame keystore ecdsa eddsa eddsa_ph f env ent env' ent' :
+  ncs_call keystore ecdsa eddsa eddsa_ph f env ent = Ok (env', ent') -> only_wrapper env env'.
+Proof.
+  unfold ncs_call. destruct (r_key_name f); [|discriminate]. destruct (r_key_id f); [|discriminate]. apply sign_envelope_frame.
+Qed.
+
+(* ---- the constructor phase builds a consistent tree ---- *)
+Inductive cfg_ok : cfg -> Prop :=
+| CfgOk c : NoDup (map fst (cfg_deps c)) -> (forall dn dc, In (dn, dc) (cfg_deps c) -> cfg_ok dc) -> cfg_ok c.
+
+Lemma rs_init_ok envvar c : forall env name ss ks alg ctx n,
+  cfg_ok c -> rs_init envvar c env name ss ks alg ctx = Ok n -> rnode_ok n /\ rn_env n = env /\ r_name (rn_fields n) = name.
+Proof.
+  induction c as [o kn kid cs ck ca cx cact b deps IH] using cfg_ind'. intros env name ss ks alg ctx n Hok.
+  rewrite rs_init_unfold. cbv zeta. intros H.
+  destruct (_ && _) in H; [discriminate H|]. destruct (_ && _) in H; [discriminate H|].
+  hstep H. hstep H. hstep H. hstep H. destruct b; [discriminate H|].
+  match type of H with match ?d with Ok _ => _ | Raise _ => _ end = _ => destruct d as [ds|] eqn:Ed; [|discriminate H] end.
+  injection H as <-. cbn [rn_env rn_fields r_name]. split; [|split; reflexivity].
+  inversion Hok as [? Hnd Hch]; subst. cbn [cfg_deps] in *.
+  destruct deps as [l|]; [|injection Ed as <-; constructor; [constructor|intros d []]].
+  assert (Hl : map (fun d => r_name (rn_fields d)) ds = map fst l
+               /\ forall d, In d ds -> load_dependency env (r_name (rn_fields d)) = Ok (rn_env d) /\ rnode_ok d).
+  { clear Hnd Hok. revert ds Ed IH Hch. induction l as [|[dn dc] r IHr]; intros ds Ed IH Hch; cbn [init_deps] in Ed.
+    - injection Ed as <-. split; [reflexivity|intros d []].
+    - inversion IH as [|? ? Hdc Hr]; subst. cbn [snd] in Hdc.
+      destruct (load_dependency env dn) as [denv|] eqn:El; [|discriminate].
+      destruct (rs_init envvar dc denv dn _ _ _ _) as [d|] eqn:Ei; [|discriminate].
+      destruct (init_deps _ env r) as [ds'|] eqn:Er; [|discriminate]. injection Ed as <-.
+      destruct (Hdc _ _ _ _ _ _ _ (Hch dn dc (or_introl eq_refl)) Ei) as (Hdok & Hdenv & Hdn).
+      destruct (IHr ds' eq_refl Hr (fun a b Hin => Hch a b (or_intror Hin))) as [Hn Hd].
+      split; [cbn [map fst]; rewrite Hdn, Hn; reflexivity|].
+      intros d' [<-|Hin]; [rewrite Hdn, Hdenv; split; assumption|apply Hd, Hin]. }
+  destruct Hl as [Hn Hd]. constructor; [rewrite Hn; exact Hnd|exact Hd].
+Qed.
+
+(* ---- monotonicity of "at every level"; the manifest is among the untouched entries ---- *)
+Lemma every_level_mono (P Q : rnode -> cbor -> Prop) :
+  (forall n e, P n e -> Q n e) -> forall n e, every_level P n e -> every_level Q n e.
+Proof.
+  intros HPQ. fix IH 3. intros n e [n' e' Hp Hd]. constructor; [apply HPQ, Hp|].
+  intros d Hin. destruct (Hd d Hin) as (denv' & Hg & Hel). exists denv'. split; [exact Hg|apply IH, Hel].
+Qed.
+Lemma frame_keeps_manifest n e : frame_level n e -> manifest_level n e.
+Proof.
+  unfold manifest_level. intros [->|(t & kvs & kvs' & -> & -> & _ & Hs)]; [reflexivity|].
+  unfold env_get, env_map. rewrite Hs; [reflexivity|reflexivity|]. intros dn _. reflexivity.
+Qed.
+
+(* ---- omit-signing: the key attributes of such a node are never looked at ---- *)
+Lemma node_omit_no_key sc envvar c kn kid env name ss ks alg ctx ent :
+  cfg_omit c = true ->
+  match rs_init envvar (with_keys c kn kid) env name ss ks alg ctx with Ok n => rs_sign sc n ent | Raise x => Raise x end =
+  match rs_init envvar (with_keys c None None) env name ss ks alg ctx with Ok n => rs_sign sc n ent | Raise x => Raise x end.
+Proof.
+  destruct c as [o kn0 kid0 cs ck ca cx cact b deps]. cbn [cfg_omit with_keys]. destruct o as [[|]|]; try discriminate. intros _.
+  rewrite !rs_init_unfold. cbv zeta. cbn [negb]. rewrite !Bool.andb_false_r.
+  destruct (resolve_script envvar cs ss _ _); [|reflexivity]. destruct (resolve_script envvar ck ks _ _); [|reflexivity].
+  destruct (match ca with Some a => enum_of_value sign_algs a | None => Ok alg end); [|reflexivity].
+  destruct (match cact with Some a => enum_of_value signed_actions a | None => Ok default_action end); [|reflexivity].
+  destruct b; [reflexivity|].
+  match goal with |- match match ?d with Ok _ => _ | Raise _ => _ end with Ok _ => _ | Raise _ => _ end = _ => destruct d; [|reflexivity] end.
+  rewrite !rs_sign_unfold. cbn [r_omit]. reflexivity.
+Qed.
+
+(* ---- a bad dependency anywhere in the configuration stops the constructor phase: nothing has been signed yet ---- *)
+Lemma init_deps_raises rec env l :
+  (exists dn dc, In (dn, dc) l /\ ((exists e, load_dependency env dn = Raise e)
+                                   \/ exists denv e, load_dependency env dn = Ok denv /\ rec dc denv dn = Raise e)) ->
+  exists e, init_deps rec env l = Raise e.
+Proof.
+  induction l as [|[dn0 dc0] r IH]; intros (dn & dc & Hin & Hbad); [destruct Hin|]. cbn [init_deps].
+  destruct (load_dependency env dn0) as [denv0|e0] eqn:El; [|eauto].
+  destruct (rec dc0 denv0 dn0) as [d0|e0] eqn:Er; [|eauto].
+  destruct Hin as [[= -> ->]|Hin].
+  - destruct Hbad as [[e He]|(denv & e & Hl & Hr)]; [congruence|]. rewrite El in Hl. injection Hl as <-. congruence.
+  - destruct (IH (ex_intro _ dn (ex_intro _ dc (conj Hin Hbad)))) as [e He]. rewrite He. eauto.
+Qed.
+Lemma bad_dependency_raises envvar c env :
+  bad_dependency c env -> forall name ss ks alg ctx, exists e, rs_init envvar c env name ss ks alg ctx = Raise e.
+Proof.
+  induction 1 as [c env dn dc e Hin Hl|c env dn dc denv Hin Hl Hbad IH]; intros name ss ks alg ctx;
+    destruct c as [o kn kid cs ck ca cx cact b deps]; rewrite rs_init_unfold; cbv zeta; cbn [cfg_deps] in Hin;
+    (destruct (_ && _); [eauto|]); (destruct (_ && _); [eauto|]);
+    (destruct (resolve_script envvar cs ss _ _) as [ss'|]; [|eauto]); (destruct (resolve_script envvar ck ks _ _) as [ks'|]; [|eauto]);
+    (destruct (match ca with Some a => enum_of_value sign_algs a | None => Ok alg end) as [alg'|]; [|eauto]);
+    (destruct (match cact with Some a => enum_of_value signed_actions a | None => Ok default_action end); [|eauto]);
+    (destruct b; [eauto|]); (destruct deps as [l|]; [|destruct Hin]).
+  - destruct (init_deps_raises (fun dc denv dep => rs_init envvar dc denv dep (Some ss') (Some ks') alg' (match cx with Some x => Some x | None => ctx end)) env l) as [e' He'].
+    + exists dn, dc. split; [exact Hin|]. left. eauto.
+    + rewrite He'. eauto.
+  - destruct (init_deps_raises (fun dc denv dep => rs_init envvar dc denv dep (Some ss') (Some ks') alg' (match cx with Some x => Some x | None => ctx end)) env l) as [e' He'].
+    + exists dn, dc. split; [exact Hin|]. right. destruct (IH dn (Some ss') (Some ks') alg' (match cx with Some x => Some x | None => ctx end)) as [e He]. eauto.
+    + rewrite He'. eauto.
+Qed.
